@@ -286,4 +286,18 @@ def cases(tier):
             out.append(
                 Case(f"diagonal_ignored_{b}_n{n}", diagonal_ignored(n, b), covers=COVERS, bounds={"atoms": n}, canaries=["keep_diagonal"])
             )
+    # several noise trajectories: every SequenceData uses the matrix of ITS OWN trajectory (shared with C34)
+    from harness.c34 import reps_expansion
+
+    for k in ([2] if tier == "quick" else [2, 3]):
+        out.append(
+            Case(
+                f"per_trajectory_matrix_samples{k}",
+                reps_expansion(k),
+                covers=[("emu_base/pulser_adapter.py", "PulserData.get_sequences")],
+                bounds={"noisy_samples": k, "reps": "1..3 each", "user_matrix": None, "trajectory matrices": "pairwise different"},
+                canaries=["one_per_sample"],
+                weight=3**k,
+            )
+        )
     return out
